@@ -5,6 +5,7 @@
 //
 //	edf      malformed EDF stream: result class / value vs the Coq model, allocation per decode
 //	hs       garbage / truncated / oversized handshake messages fed to the real Accept and Start
+//	hsnode   a real node meets a peer that knows the cookie and sends invalid MessageIntroduce / MessageAccept fields
 //	frames   raw hostile byte streams fed to a real proto connection
 //	(edf-child, hs-child, frames-child: the child sides)
 package main
@@ -22,6 +23,7 @@ type flags struct {
 	replay string
 	known  map[string]bool // tags of known findings whose input classes may be generated
 	in     string          // child: input file
+	corpus string          // directory of witness cases (replay format) run before the generated ones
 }
 
 func parseFlags(args []string) flags {
@@ -31,8 +33,9 @@ func parseFlags(args []string) flags {
 	replay := fs.String("replay", "", "replay file (json case)")
 	known := fs.String("known", "", "comma separated tags of known findings (their input classes are generated only when listed)")
 	in := fs.String("in", "", "child: input file")
+	corpus := fs.String("corpus", "", "directory of witness cases run first")
 	fs.Parse(args)
-	f := flags{n: *n, out: *out, replay: *replay, in: *in, known: map[string]bool{}}
+	f := flags{n: *n, out: *out, replay: *replay, in: *in, corpus: *corpus, known: map[string]bool{}}
 	for _, t := range strings.Split(*known, ",") {
 		if t != "" {
 			f.known[t] = true
@@ -56,6 +59,10 @@ func main() {
 		runHs(f)
 	case "hs-child":
 		runHsChild(f)
+	case "hsnode":
+		runHsNode(f)
+	case "hsnode-child":
+		runHsNodeChild(f)
 	case "frames":
 		runFrames(f)
 	case "frames-child":
